@@ -478,14 +478,17 @@ def events_list():
 
 class Space(object):
     def initial(self, tier):
-        return [[["seed", k]] for k in sorted(SEEDS)] + [[["seed", k + "*"]] for k in sorted(SEEDS)]
+        return [[["seed", k]] for k in sorted(SEEDS) + ["D"]] + [[["seed", k + "*"]] for k in sorted(SEEDS)]
 
     def events(self, hist, tier):
         return events_list()
 
     def run(self, hist):
         seed = hist[0][1]
-        regs = [D.build_impl(SEEDS[seed.rstrip("*")]), None]
+        if seed.rstrip("*") == "D":      # built WITHOUT axes: default dims x0, x1 and labels 0..n-1 supplied by the library
+            regs = [DimArray(np.arange(6.).reshape(3, 2) + 100), None]
+        else:
+            regs = [D.build_impl(SEEDS[seed.rstrip("*")]), None]
         if seed.endswith("*"):            # a 'used' start state: every query of the alphabet has been asked once (caches filled)
             for q in sorted(QUERIES):
                 call(QUERIES[q], regs[0])
@@ -548,6 +551,15 @@ class Space(object):
                 if pr[k] != pt[k]:
                     return bad("after {}: register r{} ({}) answers probe {!r} differently from a freshly constructed array with the same "
                                "values, labels and dims: {} vs fresh {}".format(hist[1:], i, common.describe(r, 200), k, str(pr[k])[:300], str(pt[k])[:300]))
+        # whatever happened to other arrays before, the constructor forms that OMIT the axes still mean labels 0..n-1 and dims x0, x1, ...
+        for build, nm in ((lambda: DimArray(np.zeros((3, 2))), "DimArray(values)"), (lambda: da.zeros(shape=(3, 2)), "zeros(shape=)"),
+                          (lambda: da.ones(shape=(3,)), "ones(shape=)")):
+            d0 = call(build)
+            if isinstance(d0, Raised):
+                return bad("after {}: {} raised {}".format(hist[1:], nm, d0), klass="unexpected-exception")
+            labs = [py(ax.values) for ax in d0.axes]
+            if labs != [list(range(n)) for n in d0.shape] or list(d0.dims) != ["x%d" % i for i in range(d0.ndim)]:
+                return bad("after {}: {} built dims {} with labels {} instead of the default x0.. / 0..n-1".format(hist[1:], nm, d0.dims, labs))
         canon = common.digest((tuple(common.snap(r) if isinstance(r, DimArray) else None for r in regs), hidden(regs)))
         return ok(hist[-1][0], changed, canon=canon)
 
